@@ -259,12 +259,12 @@ class Bed:
         if attempts_after - 1 >= self.max_attempts:
             self.hit(f"row {rid} delivered with attempts={attempts_after - 1} >= max_attempts={self.max_attempts}", "polled-at-limit")
 
-    def on_release(self, w: int, rid: int, kind: str) -> None:
+    def on_release(self, w: int, rid: int, kind: str, unlocked: bool = True) -> None:
         ls = self.leases.get(rid, [])
         # a lease revived by extend_lock after it had lapsed does not count as a valid hold of the caller
         mine_live = any(l["w"] == w and l["live"] and not l["revived"] for l in ls)
         others_live = any(l["w"] != w and l["live"] for l in ls)
-        if others_live and not mine_live:
+        if others_live and not mine_live and unlocked:
             self.breaker[rid] = kind if kind.startswith("raw") else f"stale-{kind}"
             self.tags.append(f"{self.breaker[rid]}-under-live-holder")
         self.leases[rid] = [l for l in ls if l["w"] != w]
@@ -410,8 +410,11 @@ class Bed:
         if k == "resched":
             w, rid = int(toks[1]), int(toks[2])
             raw = (w, rid) not in self.msgs      # hand-made Message: no claim token, the call is unguarded
+            lock_before = {r["id"]: r["lock"] for r in self.rows()}.get(rid)
             self.workers[w].call(lambda: q.reschedule(self._msg(rid, w), HOUR if toks[3] == "1" else timedelta(0)))
-            self.on_release(w, rid, "raw-reschedule" if raw else "reschedule")
+            lock_after = {r["id"]: r["lock"] for r in self.rows()}.get(rid)
+            # only a call that really released a held lock can be the cause of a later double hold
+            self.on_release(w, rid, "raw-reschedule" if raw else "reschedule", unlocked=(lock_before == "h" and lock_after != "h"))
             return "ok"
         if k == "extend":
             w, rid = int(toks[1]), int(toks[2])
